@@ -197,8 +197,7 @@ theorem vd_kwRef {env : Env} {base : List (Str × Json)} (hf : StableFetchS env)
   refine vd_of_pointwise hw (fun st hp => ?_)
   obtain ⟨h1, h2⟩ := resolve_PK hf hp hdes
   refine ⟨(resolve env r st).2, h2, fun b => ?_⟩
-  unfold kwRef
-  dsimp only
+  rw [kwRef_str]
   rcases hr : resolve env r st with ⟨res, st1⟩
   rw [hr] at h1
   dsimp only at h1
